@@ -205,6 +205,7 @@ class Interp:
         self.next_read = 0
         self.reads = {}                   # rid -> {"prim":, "n":, "loc":}
         self.loop_stack = []              # domains of the enclosing loops
+        self.const_env = [{}]             # const-generic parameter values of the function being inlined
         self.break_envs = []              # per enclosing loop: [(cond, env at a `break`)] — merged into the env after the loop
         self.notes = []
         self.cond_stack = []
@@ -264,6 +265,15 @@ class Interp:
                     self.bind(f["p"], ("payload", t, path, f["f"]) if t[0] != "varn" else dict(t[2]).get(f["f"], ("unk", "field")), env)
         elif k == "Expr":
             pass
+        elif k == "Slice":
+            if pat.get("mid") is not None or "rest" in pat:
+                raise Unsupported("slice pattern with a rest element")
+            subs = (pat.get("pats") or []) + (pat.get("pre") or []) + (pat.get("post") or [])
+            for i, q in enumerate(subs):
+                if t[0] == "vec" and all(sg[0] == "one" for sg in t[1]) and i < len(t[1]):
+                    self.bind(q, t[1][i][1], env)
+                else:
+                    self.bind(q, ("app", "index", (t, C(i))), env)
         elif k == "Or":
             # alternatives without bindings need nothing bound
             def has_binding(p):
@@ -501,7 +511,10 @@ class Interp:
         if res in ("Fn", "AssocFn"):
             return ("fnref", d, n.get("def"))
         if res == "ConstParam":
-            return ("in", "const:" + str(d).rsplit("::", 1)[-1])
+            nm = str(d).rsplit("::", 1)[-1]
+            if nm in self.const_env[-1]:
+                return C(self.const_env[-1][nm])
+            return ("in", "const:" + nm)
         return ("app", "path:" + str(d), ())
 
     def e_Tup(self, n, env):
@@ -900,6 +913,7 @@ class Interp:
             for p, a in zip(fn.params, args):
                 self.bind(p, a, e2)
             self.depth -= 1
+            self.const_env.append(const_args(fn, n))
             try:
                 return self.eval(fn.body, e2)
             except Exit as e:
@@ -907,6 +921,7 @@ class Interp:
                     return e.value
                 raise
             finally:
+                self.const_env.pop()
                 self.depth += 1
         return ("app", path or generic or "?", tuple(args))
 
@@ -943,7 +958,14 @@ class Interp:
                 return ("stream", recv[1], recv[2], recv[3] + (("map", f),))
             if is_var(recv, SOME) or is_var(recv, OK):
                 inner = recv[2][0]
-                out = self.call_closure(f, [inner]) if f[0] == "closure" else (var(f[1], inner) if f[0] == "ctor" else ("app", "map", (f, inner)))
+                if f[0] == "closure":
+                    out = self.call_closure(f, [inner])
+                elif f[0] == "ctor":
+                    out = var(f[1], inner)
+                elif f[0] == "fnref":
+                    out = self.call_path(f[1], [inner], f[2])
+                else:
+                    out = ("app", "map", (f, inner))
                 return var(recv[1], out)
             if is_var(recv, NONE):
                 return recv
@@ -952,6 +974,8 @@ class Interp:
                 return ("optmap", recv, self.call_closure(f, [("some_payload", recv)]))
             if f[0] == "ctor":
                 return ("optmap", recv, var(f[1], ("some_payload", recv)))
+            if f[0] == "fnref" and not g.endswith("iterator::Iterator::map"):
+                return ("optmap", recv, self.call_path(f[1], [("some_payload", recv)], f[2]))
             return ("app", g, (recv, f))
         if g.endswith("iterator::Iterator::find_map") or g.endswith("iterator::Iterator::find") or g.endswith("iterator::Iterator::any") or g.endswith("iterator::Iterator::position"):
             # search over a stream: the (first) element for which the closure answers; kept as an opaque application
@@ -1091,6 +1115,31 @@ class Interp:
 
 
 # ---------------------------------------------------------------------------- path enumeration over events
+
+def const_args(fn, call_node):
+    """{const generic name: value} for an inlined call, read off by unifying the callee's declared return type with the
+    type of the call expression (`Result<[u8; N], E>` vs `Result<[u8; 4], E>`)"""
+    if call_node is None:
+        return {}
+    sig = fn.d.get("sig") or ""
+    ret = sig.rsplit(" -> ", 1)[-1] if " -> " in sig else ""
+    got = call_node.get("ty") or ""
+    names = re.findall(r"; (\w+)\]", ret)
+    vals = re.findall(r"; (\w+)\]", got)
+    out = {}
+    if len(names) == len(vals):
+        for a, b in zip(names, vals):
+            if not a.isdigit() and b.isdigit():
+                out[a] = int(b)
+    return out
+
+
+def subst_const_type(ty, cenv):
+    """`[u8; N]` -> `[u8; 4]` under the current const-generic environment"""
+    if not ty or not cenv:
+        return ty
+    return re.sub(r"; (\w+)\]", lambda m: f"; {cenv[m.group(1)]}]" if m.group(1) in cenv else m.group(0), ty)
+
 
 def negate(cond):
     if isinstance(cond, tuple) and cond and cond[0] == "not":
